@@ -209,19 +209,22 @@ impl Monitor for OnchainMonitor {
 			}
 			eprintln!("TREE owned {:?} fees {:?} contributed {:?} unowned {:?}", owned, fees, contributed, unowned);
 		}
+		// with a fee-sensitive miner and a fee level that may have risen to 12 000 sat/kw, outputs that are not
+		// worth the fee of claiming them legitimately stay unclaimed
+		let small: u64 = if w.fee_market_used { 20_000 } else { 330 };
 		v.rep.count("onchain_ledgers_judged");
 		v.rep.add("onchain_tree_transactions", tree.len() as u64);
 		v.rep.max("onchain_max_tree_transactions", tree.len() as u64);
 		// nothing may be left behind except anchors
 		for (op, val) in unowned.iter() {
 			v.rep.count("onchain_unowned_terminal_outputs");
-			if *val > 330 {
+			if *val > small {
 				v.violation(prop, "U4-recovery", "an output of the closing transaction tree was never recovered by anyone", format!("chan {}: {} worth {} sat is still unspent and belongs to no wallet (tree of {} transactions)", close.chan, op, val, tree.len()));
 			}
 		}
 		// balances drain to nothing
 		for n in nodes.iter() {
-			let left = w.nodes[*n].mon.get_claimable_balances(&[]);
+			let left: Vec<lightning::chain::channelmonitor::Balance> = w.nodes[*n].mon.get_claimable_balances(&[]).into_iter().filter(|b| b.claimable_amount_satoshis() > small || !w.fee_market_used).collect();
 			if !left.is_empty() {
 				v.violation(prop, "U2-balances-drain", "claimable balances remain after every output matured and was swept", format!("node{}: {:?}", n, left).chars().take(600).collect());
 			}
@@ -236,10 +239,11 @@ impl Monitor for OnchainMonitor {
 			v.rep.count("c06_j2_revoked_closes_judged");
 			let cheater_owned = owned.get(&bc).cloned().unwrap_or(0);
 			let victim = owned.get(&other).cloned().unwrap_or(0) + fees.get(&other).cloned().unwrap_or(0);
-			let anchors: u64 = unowned.iter().filter(|(_, v)| *v <= 330).map(|(_, v)| *v).sum();
+			let anchors: u64 = unowned.iter().filter(|(_, v)| *v <= small).map(|(_, v)| *v).sum();
 			v.rep.add("c06_j2_outputs_of_revoked_commitments", t.output.len() as u64);
 			v.rep.add("c06_j2_attacker_second_stage_txs_confirmed", tree.iter().skip(1).filter(|x| close.attacker_txids.contains(x)).count() as u64);
-			if cheater_owned > 0 {
+			// (under a fee-sensitive miner the victim rationally leaves outputs that are not worth their claim fee)
+			if cheater_owned > if w.fee_market_used { small } else { 0 } {
 				v.violation("C06", "J2-full-punishment", "the cheating party kept funds from its revoked commitment", format!("chan {}: cheater node{} owns {} sat of the closing tree (victim {} sat incl. fees, commitment outputs {} sat)", close.chan, bc, cheater_owned, victim, t_out));
 			}
 			// attacker-paid fees of its second-stage transactions are burnt, not the victim's loss
@@ -263,6 +267,7 @@ impl Monitor for OnchainMonitor {
 		let (bc, other) = (owner, ch.peer_of(owner));
 		let dust = ch.model.as_ref().map(|m| m.p.dust[ch.party(bc)]).unwrap_or(354);
 		let mut ent: HashMap<usize, u64> = HashMap::new();
+		let dust = if w.fee_market_used { small } else { dust };
 		if ci.to_broadcaster_sat >= dust {
 			*ent.entry(bc).or_default() += ci.to_broadcaster_sat;
 		}
@@ -275,6 +280,10 @@ impl Monitor for OnchainMonitor {
 			let pre = vcore::hex(&h.hash[..6]);
 			let known_at = self.claims.iter().filter(|(n, p, _)| *n == claimant && *p == pre).map(|(_, _, ht)| *ht).min();
 			v.rep.count("c07_u4_htlc_outputs_judged");
+			if w.fee_market_used && h.amount_msat / 1000 < small {
+				v.rep.count("c07_u4_htlc_outputs_not_worth_their_fee");
+				continue;
+			}
 			match known_at {
 				None => *ent.entry(offerer).or_default() += h.amount_msat / 1000,
 				Some(kh) if kh.max(close_h) + 40 <= h.cltv => *ent.entry(claimant).or_default() += h.amount_msat / 1000,
